@@ -52,6 +52,9 @@ C33_CountersRest(ctr, accepted, toFirst, toSecond, stillOpen) ==
   /\ ctr.total = accepted
   /\ ctr.inb + ctr.outb = toFirst + toSecond
   /\ ctr.open = stillOpen
+\* the open-connection count returns to zero: once no forwarded connection is left (all are over,
+\* or the forwarding loop that carried them is gone) the session reports no open connection
+C33_OpenReturnsToZero(ctr) == ctr.open = 0
 \* state.proto: outbound = source -> destination, inbound = destination -> source
 C33_CountersDirection(ctr, toFirst, toSecond) == ctr.inb = toFirst /\ ctr.outb = toSecond
 ====
